@@ -887,6 +887,54 @@ class ValueNode(SyntaxNodeBase):
             )
         return self.value != self._og_value
 
+    @staticmethod
+    def _reads_back_as(text, value):
+        """
+        Whether the formatted text is read back as the value within the tolerance.
+
+        :rtype: bool
+        """
+        return math.isclose(
+            fortran_float(text.strip()), value, rel_tol=rel_tol, abs_tol=abs_tol
+        )
+
+    def _format_float(self, value, precision):
+        """
+        Formats a float in the style of the original token with the given precision.
+
+        :rtype: str
+        """
+        # default to python general if new value
+        if not self._is_reversed:
+            temp = "{value:0={sign}{zero_padding}.{precision}g}".format(
+                value=value, **{**self._formatter, "precision": precision}
+            )
+        elif self._formatter["is_scientific"]:
+            temp = "{value:0={sign}{zero_padding}.{precision}e}".format(
+                value=value, **{**self._formatter, "precision": precision}
+            )
+            temp = temp.replace("e", self._formatter["divider"])
+            temp_match = self._SCIENTIFIC_FINDER.match(temp)
+            exponent = temp_match.group("exponent")
+            start, end = temp_match.span("exponent")
+            new_exp_temp = "{value:0={zero_padding}d}".format(
+                value=int(exponent),
+                zero_padding=self._formatter["exponent_zero_pad"],
+            )
+            new_exp = "{temp:<{value_length}}".format(
+                temp=new_exp_temp, value_length=self._formatter["exponent_length"]
+            )
+            temp = temp[0:start] + new_exp + temp[end:]
+        elif self._formatter["as_int"]:
+            temp = "{value:0={sign}0{zero_padding}.{precision}g}".format(
+                value=value, **{**self._formatter, "precision": max(precision, 6)}
+            )
+        else:
+            temp = "{value:0={sign}0{zero_padding}.{precision}f}".format(
+                value=value, **{**self._formatter, "precision": precision}
+            )
+        return temp
+
     def format(self):
         if not self._value_changed:
             return f"{self._token}{self.padding.format() if self.padding else ''}"
@@ -902,33 +950,14 @@ class ValueNode(SyntaxNodeBase):
                 value=int(value), **self._formatter
             )
         elif self._type == float:
-            # default to python general if new value
-            if not self._is_reversed:
-                temp = "{value:0={sign}{zero_padding}.{precision}g}".format(
-                    value=value, **self._formatter
-                )
-            elif self._formatter["is_scientific"]:
-                temp = "{value:0={sign}{zero_padding}.{precision}e}".format(
-                    value=value, **self._formatter
-                )
-                temp = temp.replace("e", self._formatter["divider"])
-                temp_match = self._SCIENTIFIC_FINDER.match(temp)
-                exponent = temp_match.group("exponent")
-                start, end = temp_match.span("exponent")
-                new_exp_temp = "{value:0={zero_padding}d}".format(
-                    value=int(exponent),
-                    zero_padding=self._formatter["exponent_zero_pad"],
-                )
-                new_exp = "{temp:<{value_length}}".format(
-                    temp=new_exp_temp, value_length=self._formatter["exponent_length"]
-                )
-                temp = temp[0:start] + new_exp + temp[end:]
-            elif self._formatter["as_int"]:
-                temp = "{value:0={sign}0{zero_padding}g}".format(
-                    value=value, **self._formatter
-                )
-            else:
-                temp = "{value:0={sign}0{zero_padding}.{precision}f}".format(
+            # add digits until the text reads back as the value within the tolerance
+            precision = self._formatter["precision"]
+            temp = self._format_float(value, precision)
+            while precision < 17 and not self._reads_back_as(temp, value):
+                precision += 1
+                temp = self._format_float(value, precision)
+            if not self._reads_back_as(temp, value):
+                temp = "{value:0={sign}{zero_padding}.17g}".format(
                     value=value, **self._formatter
                 )
         else:
